@@ -2,10 +2,19 @@
    Directives used: ExtrOcamlBasic (bool, option, unit, prod, list, sumbool -> OCaml natives)
    and ExtrOcamlString (ascii -> char, string -> char list). nat, N, Z stay Coq datatypes. *)
 From Coq Require Import Extraction ExtrOcamlBasic ExtrOcamlString.
-From RG Require Import Pure.CanCall Pure.Rid Pure.Pattern Pure.Lcs Pure.LcsTab.
+From RG Require Import Base.Value Pure.CanCall Pure.Rid Pure.Pattern Pure.Lcs Pure.LcsTab Pure.ModelDiff Comp.ResSub Pure.PatternParse Pure.RidPart Pure.Status Pure.Origin Pure.HttpPath Pure.Header Comp.Throttle.
 Set Extraction Optimize.
 Separate Extraction
   CanCall.can_call CanCall.entries
   Rid.is_valid_rid Rid.name_of
   Pattern.pmatch
-  Lcs.apply_evs LcsTab.lcs_model.
+  Lcs.apply_evs LcsTab.lcs_model
+  ModelDiff.reset_props ModelDiff.apply_change ModelDiff.client_apply
+  ResSub.run ResSub.init
+  PatternParse.is_valid PatternParse.match_model
+  RidPart.is_valid_part RidPart.dispatch_method RidPart.query_of
+  Status.error_status Status.status_error Status.is_direct Status.is_valid_status
+  Origin.matches_origins Origin.to_lower
+  HttpPath.path_to_rid HttpPath.path_to_rid_action HttpPath.rid_to_path
+  Header.apply_meta Header.canon
+  Throttle.step.
